@@ -871,13 +871,28 @@ def r_side(ctx, view):
     def fwd(fkey, callee, label):
         f = prog.fn(fkey)
         ctx.anchor(fkey, f is not None)
-        ok, why = forwards(view, f, callee, arg_params=[], recv_field="pq")
+        ok, why = forwards(view, f, callee, arg_params=[], recv_field=tuple(prog.carrier_fields - {"store"}))
         ctx.ob("R-SIDE", label, ok, f.loc(), why)
 
     fwd("<priority_queue::iterators::IntoSortedIter as Iterator>::next", PQ + "::pop", "PriorityQueue::IntoSortedIter::next=pop")
     fwd("<double_priority_queue::iterators::IntoSortedIter as Iterator>::next", DPQ + "::pop_min", "DoublePriorityQueue::IntoSortedIter::next=pop_min")
     fwd("<double_priority_queue::iterators::IntoSortedIter as DoubleEndedIterator>::next_back", DPQ + "::pop_max", "DoublePriorityQueue::IntoSortedIter::next_back=pop_max")
-    fwd("<double_priority_queue::iterators::IntoSortedIter as ExactSizeIterator>::len", DPQ + "::len", "DoublePriorityQueue::IntoSortedIter::len=queue-len")
+    # what the sorted iterator reports as its length is the queue's length - whichever of len() / size_hint() is written
+    # through the other
+    from .rules_iter import count_term
+    T_ = "double_priority_queue::iterators::IntoSortedIter"
+    ln = prog.fn("<%s as ExactSizeIterator>::len" % T_)
+    sh = prog.fn("<%s as Iterator>::size_hint" % T_)
+    ctx.anchor("<%s as ExactSizeIterator>::len" % T_, ln is not None)
+    ct = count_term(view, T_, sh, ln, ret_term(view, ln))
+    carriers = prog.carrier_fields - {"store"}
+    okl = ct[0] == "call" and ct[1] == "len" and len(ct[2]) == 1 and strip(ct[2][0])[0] == "field" and strip(ct[2][0])[2] in carriers \
+        and strip(strip(ct[2][0])[1])[0] == "param"
+    if okl:
+        # and that `len` is the queue's: no other crate function named len is reachable from it
+        lens = {k for k in fx.reach(ln.key) if k.split("::")[-1] == "len" and k != ln.key and "IntoSortedIter" not in k}
+        okl = lens <= {DPQ + "::len", "store::Store::len"} and (DPQ + "::len") in lens
+    ctx.ob("R-SIDE", "DoublePriorityQueue::IntoSortedIter::len=queue-len", okl, ln.loc(), "len() = %s" % term_str(ct)[:80])
     for (fkey, callee) in ((PQ + "::into_sorted_vec", PQ + "::pop"), (DPQ + "::into_ascending_sorted_vec", DPQ + "::pop_min"),
                            (DPQ + "::into_descending_sorted_vec", DPQ + "::pop_max")):
         f = prog.fn(fkey)
@@ -972,18 +987,20 @@ def r_serde(ctx, view):
                "other accesses that can write map entries: %s" % "; ".join(foreign))
     ser = prog.fn("<store::Store as Serialize>::serialize")
     ctx.anchor("Serialize for Store (serde feature)", ser is not None)
-    names = [t["func"]["name"] for bb, t in ser.calls() if "func" in t]
+    ser_calls = [(g, bb, t) for g in prog.family(ser.key) for bb, t in g.calls()]   # the element may be written inside a closure
+    names = [t["func"]["name"] for g, bb, t in ser_calls if "func" in t]
     ok = "serialize_seq" in names and "serialize_element" in names and "end" in names
     ctx.ob("R-SERDE", "Store::serialize:is-a-sequence", ok, ser.loc(), "uses serialize_seq / serialize_element / end (%s)" % [n for n in names if n.startswith(("serialize", "end"))])
     # element = (&I, &P) from iterating the map only; length hint = size
-    el = [t for bb, t in ser.calls() if "func" in t and t["func"]["name"] == "serialize_element"]
+    el = [t for g, bb, t in ser_calls if "func" in t and t["func"]["name"] == "serialize_element"]
     okel = False
     if el:
         g = el[0]["func"]["gargs"]
         tys = [x["s"] for x in g]
         okel = any(x.replace(" ", "") in ("(&I,&P)",) for x in tys)
     ctx.ob("R-SERDE", "Store::serialize:element-is-(item,priority)", okel, ser.loc(), "serialize_element::<%s>" % (tys if el else "?"))
-    it = [t for bb, t in ser.calls() if "func" in t and t["func"]["name"] == "into_iter"]
+    it = [t for bb, t in ser.calls() if "func" in t and t["func"]["name"] in ("into_iter", "try_for_each", "for_each", "try_fold")
+          and (t["func"].get("trait") or "").startswith("std::iter::")]
     def over_map(x):
         # the map itself, or a read-only whole-map view of it (`&self.map`, `self.map.iter()`)
         x = strip(x)
@@ -1229,7 +1246,10 @@ def r_readers(ctx, view):
     if r[0] == "call" and r[1].split("::")[-1] == "is_empty" and r[2] and component(r[2][0]):
         ok = True
     ob("Store::is_empty", ok, f, "is_empty() = %s (must be `size == 0` / emptiness of a container)" % term_str(r)[:60])
-    for name, lookups in (("get_priority", ("get",)), ("get", ("get_full", "get_key_value")), ("get_mut", ("get_full_mut2",))):
+    # any keyed lookup of the map will do for the read accessors: the result types (`&P`, `(&I, &P)` with I and P type
+    # parameters) force which components of the found entry are returned
+    KEYED = ("get", "get_full", "get_key_value", "get_mut", "get_full_mut", "get_full_mut2")
+    for name, lookups in (("get_priority", KEYED), ("get", ("get_full", "get_key_value", "get_full_mut2")), ("get_mut", ("get_full_mut2",))):
         f = prog.fn("store::Store::" + name)
         ctx.anchor("Store::" + name, f is not None)
         r = ret_term(view, f)
